@@ -387,6 +387,11 @@ func (p *Portfolio) Check(assertions []*Term, timeout time.Duration, wantModel [
 		p.Wins[p.names[lead]]++
 		return r, m, p.names[lead], ""
 	}
+	return p.CheckAll(assertions, timeout, wantModel)
+}
+
+// CheckAll races all solvers (no head start).
+func (p *Portfolio) CheckAll(assertions []*Term, timeout time.Duration, wantModel []*Term) (Result, map[string]*big.Int, string, string) {
 	ch := make(chan pfAnswer, len(p.solvers))
 	for i, s := range p.solvers {
 		go func(i int, s *Solver) {
